@@ -43,6 +43,7 @@ type AsrtSpec struct {
 	Issuer       string     `json:"issuer"`
 	IssuerFormat string     `json:"issuer_format,omitempty"` // "": nameid-format:entity
 	IssuerNQ     string     `json:"issuer_name_qualifier,omitempty"`
+	Pretty       bool       `json:"pretty_printed,omitempty"` // the IdP pretty-prints (line breaks and indentation between child elements) before it signs
 	NoSubject    bool       `json:"no_subject,omitempty"`
 	NoNameID     bool       `json:"no_nameid,omitempty"`
 	NoConditions bool       `json:"no_conditions,omitempty"`
@@ -69,6 +70,7 @@ type RespSpec struct {
 	Issuer       *string    `json:"issuer"`                  // nil: absent
 	IssuerFormat string     `json:"issuer_format,omitempty"` // "": nameid-format:entity
 	IssuerNQ     string     `json:"issuer_name_qualifier,omitempty"`
+	Pretty       bool       `json:"pretty_printed,omitempty"` // the IdP pretty-prints (line breaks and indentation between child elements) before it signs
 	Destination  string     `json:"destination"`
 	InResponseTo string     `json:"irt"`
 	Status       string     `json:"status"`
@@ -267,6 +269,9 @@ func buildAssertionEl(a *AsrtSpec, t0 time.Time, form int, method string) *etree
 	if a.IssueText != "" {
 		el.CreateAttr("IssueInstant", a.IssueText)
 	}
+	if a.Pretty {
+		el.IndentWithSettings(&etree.IndentSettings{Spaces: 2})
+	}
 	ci := 0
 	for _, sc := range el.FindElements("./Subject/SubjectConfirmation") {
 		if ci < len(a.Confs) && a.Confs[ci].NOAText != "" {
@@ -321,8 +326,17 @@ func BuildResponseEl(s *RespSpec, t0 time.Time) *etree.Element {
 	if s.IssueText != "" {
 		el.CreateAttr("IssueInstant", s.IssueText)
 	}
+	if s.Pretty {
+		el.IndentWithSettings(&etree.IndentSettings{Spaces: 2})
+	}
 	for i := range s.Assertions {
+		if s.Pretty {
+			el.CreateText("\n  ") // between the Response's own children only: the assertions are finished (and possibly signed) documents
+		}
 		el.AddChild(buildAssertionEl(&s.Assertions[i], t0, s.TimeForm, s.SigMethod))
+	}
+	if s.Pretty {
+		el.CreateText("\n")
 	}
 	if s.Sign {
 		el = placeSignature(signEnveloped(rsaKeys[s.SignKey], s.SigMethod, el))
